@@ -133,6 +133,39 @@ func (k kkKey) full() J {
 	}
 }
 
+// kkParseKeys is the inverse of full() for the four symbolic keys of a Reset line.
+func kkParseKeys(m map[string]interface{}, names []string) ([]kkKey, error) {
+	var ks []kkKey
+	for _, n := range names {
+		e, ok := m[n].(map[string]interface{})
+		if !ok {
+			return nil, fmt.Errorf("keys: %s missing", n)
+		}
+		str := func(f string) string { s, _ := e[f].(string); return s }
+		k := kkKey{Sec: str("sec")}
+		var err error
+		switch kkKind(k.Sec) {
+		case "id":
+			k.ID, err = strconv.ParseUint(str("id"), 10, 64)
+		case "idh":
+			if k.ID, err = strconv.ParseUint(str("id"), 10, 64); err == nil {
+				k.H, err = strconv.ParseUint(str("h"), 10, 64)
+			}
+		case "addr":
+			k.Addr, err = hex.DecodeString(str("addr"))
+		default:
+			if k.R, err = hex.DecodeString(str("r")); err == nil {
+				k.S, err = hex.DecodeString(str("s"))
+			}
+		}
+		if err != nil {
+			return nil, fmt.Errorf("keys: %s: %w", n, err)
+		}
+		ks = append(ks, k)
+	}
+	return ks, nil
+}
+
 // ---------------------------------------------------------------------------------------------
 // boundary tables
 
@@ -923,6 +956,12 @@ func cmdKeys(fs *flag.FlagSet, in, out string, seed int64) error {
 		for run := 0; run < runs; run++ {
 			gen := &kkGen{rng: rand.New(rand.NewSource(seed*1000003 + int64(bi)*7919 + int64(run)*104729 + 17)), lenTick: &lenTick, lens: lens, modes: modes}
 			ks := gen.instantiate(group)
+			if fixed, ok := beh[0]["keys"].(map[string]interface{}); ok {
+				// replay of a stored recording: the instantiation of its Reset line
+				if ks, err = kkParseKeys(fixed, names); err != nil {
+					return fmt.Errorf("behaviour %d: %w", bi, err)
+				}
+			}
 			nInst++
 			byName := map[string]kkKey{}
 			byCanon := map[string]string{}
